@@ -167,6 +167,13 @@ class ClassTable:
                 return k, self.classes[k].methods[name]
         return None, None
 
+    def declare_interface(self, name, methods):
+        """a sidecar-only interface (no class in /repo): method name -> parameter list; bodies are `pass`.
+        Used for class-valued parameters such as POO's `algo`, whose calls are replaced by assumed interface contracts."""
+        src = "class %s:\n" % name + "".join("    def %s(%s):\n        pass\n" % (m, ", ".join(ps)) for m, ps in methods.items())
+        node = ast.parse(src).body[0]
+        self.classes[name] = ClassInfo(name, [], node, "<interface>", "<interface>")
+
     def declare_fields(self, cls, late=(), ghost=(), **fl):
         d = self.fields.setdefault(cls, {})
         for k, v in fl.items():
